@@ -669,7 +669,9 @@ func (e *SEnv) sel(n *ESel) Val {
 		si := c.structSort(t)
 		for i := 0; i < st.NumFields(); i++ {
 			if st.Field(i).Name() == n.Name {
-				return Val{T: sx(si.Fields[i].Acc, base.T), S: c.sortOf(st.Field(i).Type()), GT: st.Field(i).Type()}
+				r := Val{T: sx(si.Fields[i].Acc, base.T), S: c.sortOf(st.Field(i).Type()), GT: st.Field(i).Type()}
+				e.heapFact(r)
+				return r
 			}
 		}
 		e.fail("struct %s has no field %s", tstr(t), n.Name)
